@@ -154,6 +154,25 @@ def audit_case(c, failures, stats):
         if relerr(area[m], float(warea[m]), float(max(warea)) if warea else 0) > REL:
             fail("area-closed-form", f"month {m}: greenhouse area {area[m]!r}, expected {float(warea[m])!r}", month=m)
             break
+    # ---- fat and protein: one non-negative value per month, = crop fraction x kcals
+    stats["checks"] += 1
+    ay = i["base"] * (1 - 92 / 3898)
+    for nm, base in (("fat", i["fat_base"]), ("protein", i["protein_base"])):
+        v = o["prod_" + nm]
+        frn = (base / 1e3) / (ay * 4e6 / 1e9) if ay != 0 else 0.0
+        if len(v) != N or any(math.isnan(x) or math.isinf(x) for x in v):
+            fail("shape-" + nm, f"crop {nm} series has {len(v)} values for NMONTHS={N} or a non-finite value")
+        elif any(x < 0 for x in v) and all(x >= 0 for x in i["ratios"]) and i["gmult"] <= 1:
+            fail("negative-" + nm, f"crop {nm} series contains {min(v)}")
+        else:
+            sc = max(o["prod"], default=0.0) * frn
+            for m in range(N):
+                if relerr(v[m], frn * o["prod"][m], sc) > REL:
+                    fail("closed-form-" + nm, f"month {m}: crop {nm} {v[m]!r} but fraction x kcals = {frn * o['prod'][m]!r}", month=m)
+                    break
+        g = o["ghk_" + nm]
+        if len(g) != N or any(math.isnan(x) or math.isinf(x) or x < 0 for x in g):
+            fail("shape-greenhouse-" + nm, f"greenhouse {nm} series: wrong length, negative or non-finite")
     # ---- pw hypotheses
     for x, v in r["pw"]:
         stats["pw_samples"] += 1
@@ -172,6 +191,10 @@ def audit_case(c, failures, stats):
             if relerr(a, b, scale / 1024) > 1e-12:
                 fail("not-homogeneous", f"month {m}: baseline/1024 gives {b!r}, expected {a!r} (quantised?)", month=m)
                 break
+        for nm in ("prod_fat", "prod_protein", "ghk", "ghk_fat", "ghk_protein"):
+            sc2 = max(o[nm], default=0.0) / 1024
+            if len(o[nm]) != len(r2["obs"][nm]) or any(relerr(a / 1024, b, sc2) > 1e-12 for a, b in zip(o[nm], r2["obs"][nm])):
+                fail("not-homogeneous-" + nm, f"{nm}: baselines/1024 do not scale the series by 1/1024")
         if any(v > 0 for v in o["prod"]) and 0 < max(r2["obs"]["prod"]) < 1:
             stats["tiny"] += 1
     elif r["accepted"]:
